@@ -24,6 +24,8 @@ FRAG = {
  "F21": "rebroadcast transactions must not be validated against the utxoset",
  "F22": "ATR payout cap must scale the rebroadcast amount",
  "F23": "mempool must release input reservations",
+ "F24": "give the wallet's inputs back with their own coordinates",
+ "F25": "only count funds the wallet is willing to spend",
 }
 log = subprocess.run(["git","-C","/repo","log","--format=%h %s"],capture_output=True,text=True).stdout.splitlines()
 def find(frag):
